@@ -225,6 +225,11 @@ def _in_section(src, lineno):
     return depth > 0
 
 
+STDLIB_AXIOM_PREFIXES = ("ClassicalDedekindReals.", "FunctionalExtensionality.", "Classical_Prop.",
+                         "ClassicalEpsilon.", "ClassicalUniqueChoice.", "Eqdep.Eq_rect_eq.", "PropExtensionality.",
+                         "Coq.")
+
+
 def check_properties_file(pid):
     """Compile theories/Properties/<pid>.v on its own; returns dict with theorems, assumptions, ok."""
     rel = "theories/Properties/%s.v" % pid
@@ -247,13 +252,18 @@ def check_properties_file(pid):
             cur = "ax"
             continue
         if cur == "ax":
-            m = re.match(r"^(\S+)\s*:", line)
-            if m:
+            # an axiom is listed as "name : type" or, when the type is long, as "name" followed by indented lines
+            m = re.match(r"^([A-Za-z_][\w.']*)\s*(:.*)?$", line)
+            if m and not line.startswith(" "):
                 axioms.append(m.group(1))
             elif line and not line.startswith(" "):
                 cur = None
     res["closed"] = closed
     res["axioms"] = sorted(set(axioms))
+    # axioms of the Coq standard library (real numbers, classical logic, extensionality) are reported by name and
+    # accepted; anything else (in particular an axiom declared inside this project) is a failure
+    res["stdlib_axioms"] = [a for a in res["axioms"] if a.startswith(STDLIB_AXIOM_PREFIXES)]
+    res["foreign_axioms"] = [a for a in res["axioms"] if not a.startswith(STDLIB_AXIOM_PREFIXES)]
     return res
 
 
